@@ -82,7 +82,7 @@ def _max_contract(mk, counter):
     return mx
 
 
-def scn_rescaled(variant, tree_s, S, K, batch, N_or_cols):
+def scn_rescaled(variant, tree_s, S, K, batch, N_or_cols, real_max=False):
     tree = ast.literal_eval(tree_s)
     T = tree_s.count(",") + 1
     post = trees.postorder_triples(tree, T)
@@ -103,7 +103,8 @@ def scn_rescaled(variant, tree_s, S, K, batch, N_or_cols):
             tips = [mk.real("tip%d" % i, (S, N), lo=0) for i in range(T)]
         weights = mk.real("wt", (N,), lo=0)
         pl = [list(p) for p in post]
-        extra = {"max": _max_contract(mk, counter)} if mk.symbolic else None
+        # real_max: keep torch.max (the arg-max forks): the scalers are then functions of the inputs, as C12 needs
+        extra = {"max": _max_contract(mk, counter)} if (mk.symbolic and not real_max) else None
         with symbolic_factories(tl, extra=extra, enabled=mk.symbolic):
             if variant == "partials":
                 plain = tl.calculate_treelikelihood_discrete(list(tips) + [None] * (T - 1), weights, pl, mats, freqs, props)
